@@ -5,6 +5,10 @@ from ..engines import jsonpairs as J
 
 
 def run(ctx):
+    # language-level slips in the modules the property is anchored in (engine Y)
+    from ..engines import gotchas as GY
+    GY.run(ctx, ('specification', 'strategies.rule', 'strategies.strategy', 'strategies.strategy_pack', 'isomorphism', 'combinatorial_class'))
+    ctx.floor("Y", 1)
     ctx.extra["explanation"] = (
         "static analysis (ast, no execution) of every to_jsonable/from_dict pair of the package: the "
         "key table written (following super().to_jsonable()) equals the key table consumed (including "
@@ -40,3 +44,5 @@ def run(ctx):
     ctx.floor("G8", 1)
     J.j9_class_ids_are_positions(ctx)
     ctx.floor("J9", 2)
+    J.j10_class_array_is_a_list(ctx)
+    ctx.floor("J10", 2)
